@@ -752,8 +752,15 @@ def cmd_ledger(args):
         led[u["id"]] = {}
         for r in run_unit(u["_dir"], "ledger", "quick", want_neg=False):
             b = r["built"]
-            if b is None or r["failures"] or r["undecided"]:
-                print("unit %s does not verify; ledger not written: %s" % (r["unit"], r["undecided"][:2]))
+            known_obs = {k.get("obligation") for k in load_known().get("findings", [])}
+            bad = []
+            if b is not None:
+                for f in r["failures"]:
+                    _t, _n, oid = failure_tags(f, b)
+                    if oid not in known_obs:
+                        bad.append(oid)
+            if b is None or bad or r["undecided"]:
+                print("unit %s does not verify; ledger not written: %s %s" % (r["unit"], bad[:3], r["undecided"][:2]))
                 return 2
             for p in u.get("properties", []):
                 named, implicit, assumed = unit_obligations(b, p)
